@@ -30,6 +30,17 @@ Recompute(e) ==
      ELSE IF o.nonfinite THEN {"dhw_fraction_not_finite_where_specification_has_a_value"}
      ELSE IF Abs(o.v - Scaled(a.v, 6)) <= 200 + (Abs(o.v) \div 5000) THEN {} ELSE {"dhw_fraction_differs_from_specification"}
 
+\* binding of the demand: what the evaluation used as demand of a service is the step-wise sum of the DEMANDA lines
+\* the case declares for it, whatever other services' demands were declared before (events that carry decl_needs)
+DemandBound(e) ==
+  IF "decl_needs" \notin DOMAIN e \/ e.q # 0 THEN {}
+  ELSE LET DN == e.decl_needs
+           srvs == {DN[i].srv : i \in 1..Len(DN)}
+           declared(s, t) == ISumSet(LAMBDA i : DN[i].v[t], {i \in 1..Len(DN) : DN[i].srv = s})
+           used(s) == {i \in 1..Len(e.comps) : e.comps[i].kind = "NEED" /\ e.comps[i].srv = s}
+       IN IF \A s \in srvs : used(s) # {} /\ \A i \in used(s) : \A t \in 1..e.N : e.comps[i].v[t] = declared(s, t)
+          THEN {} ELSE {"demand_evaluated_is_not_the_declared_one"}
+
 Same(e, b) ==
   IF ~b.out.acs.ok \/ ~e.out.acs.ok THEN b.out.acs.ok = e.out.acs.ok /\ (b.out.acs.ok \/ b.out.acs.err = e.out.acs.err)
   \* (a value that is not finite - 0/0 for a degenerate, inconsistent input - is outside the claim)
@@ -38,7 +49,7 @@ Same(e, b) ==
 Judge(e) ==
   IF ~OK(e) THEN {}
   ELSE (IF e.out.acs.ok \/ e.out.acs.err \in {"WrongInput", "MissingFactor", "ParseError"} THEN {} ELSE {"dhw_indicator_" \o e.out.acs.err})
-       \cup MiscClauses(e)
+       \cup MiscClauses(e) \cup DemandBound(e)
        \cup (IF Lattice(e) /\ ~e.out.tagged /\ SpecOutcome(e) = "Ok" THEN Recompute(e) ELSE {})
        \cup (IF e.tag # "base" /\ base # <<>> /\ base.case = e.case /\ OK(base) /\ ~Same(e, base) THEN {"dhw_fraction_moves:" \o e.tag} ELSE {})
 
